@@ -126,8 +126,8 @@ func genAConfig(t *rapid.T) aConfig {
 	for _, n := range subsetOf(t, "location", []string{"locA", "locB", "locC"}, 1) {
 		c.Locations = append(c.Locations, genALocation(t, n, c.Upstreams))
 	}
-	for _, slot := range []int{0, 1, 2} {
-		if slot == 0 || rapid.Bool().Draw(t, "server") {
+	for _, slot := range []int{0, 1, 2, 3, 4} {
+		if slot == 0 || rapid.IntRange(0, 2).Draw(t, "server") == 0 {
 			c.Servers = append(c.Servers, genAServer(t, slot, &c))
 		}
 	}
@@ -264,7 +264,13 @@ func mutateA(t *rapid.T, prev aConfig) aConfig {
 			i := rapid.IntRange(0, len(c.Servers)-1).Draw(t, "srv")
 			c.Servers[i].MinLength, c.Servers[i].Filter, c.Servers[i].Compress = "", "", ""
 		case 4: // add or remove a server
-			slot := rapid.IntRange(1, 2).Draw(t, "slot")
+			if rapid.IntRange(0, 3).Draw(t, "removeMany") == 0 && len(c.Servers) > 2 {
+				// several servers disappear in one update
+				keep := rapid.IntRange(1, len(c.Servers)-2).Draw(t, "keepServers")
+				c.Servers = c.Servers[:keep]
+				break
+			}
+			slot := rapid.IntRange(1, 4).Draw(t, "slot")
 			found := -1
 			for i, s := range c.Servers {
 				if s.Slot == slot {
@@ -520,8 +526,8 @@ func execC16raw(sc c16Scenario) *vstat.Outcome {
 		return out
 	}
 	defer os.RemoveAll(dir)
-	ports := freePorts(8) // 0-2 live servers, 3-5 fresh servers, 6-7 admin
-	livePorts, freshPorts := ports[0:3], ports[3:6]
+	ports := freePorts(12) // 0-4 live servers, 5-9 fresh servers, 10-11 admin
+	livePorts, freshPorts := ports[0:5], ports[5:10]
 	liveDir, freshDir := dir+"/live", dir+"/fresh"
 	_ = os.MkdirAll(liveDir, 0o755)
 	_ = os.MkdirAll(freshDir, 0o755)
@@ -530,7 +536,7 @@ func execC16raw(sc c16Scenario) *vstat.Outcome {
 		out.Inconclusive = true
 		return out
 	}
-	live, err := startPike(liveDir, first, ports[6])
+	live, err := startPike(liveDir, first, ports[10])
 	if err != nil {
 		out.Inconclusive = true
 		return out
@@ -678,7 +684,7 @@ func execC16raw(sc c16Scenario) *vstat.Outcome {
 		out.Inconclusive = true
 		return out
 	}
-	fresh, err := startPike(freshDir, freshCfg, ports[7])
+	fresh, err := startPike(freshDir, freshCfg, ports[11])
 	if err != nil {
 		out.Inconclusive = true
 		return out
@@ -720,7 +726,7 @@ func execC16raw(sc c16Scenario) *vstat.Outcome {
 			}
 		}
 	}
-	if len(removedSlots) > 0 && os.Getenv("VERIF_C16_SKIP_GRACE") == "" && (graceChecks < 1 || vstat.Tier() == "thorough" && graceChecks < 6) {
+	if len(removedSlots) > 0 && os.Getenv("VERIF_C16_SKIP_GRACE") == "" && (graceChecks < 2 || len(removedSlots) >= 2 && graceChecks < 4 || vstat.Tier() == "thorough" && graceChecks < 12) {
 		graceChecks++
 		// removed servers stop listening (pike closes them after a 10 s grace period)
 		deadline := time.Now().Add(14 * time.Second)
@@ -734,6 +740,9 @@ func execC16raw(sc c16Scenario) *vstat.Outcome {
 			}
 		}
 		out.Class("removed_server_checked")
+		if len(removedSlots) >= 2 {
+			out.Class("several_servers_removed_checked")
+		}
 	}
 	if !live.alive() {
 		out.Violate("C16", "crash", "the live process exited; last output: %v", tail(live.errorLines(), 5))
